@@ -37,6 +37,18 @@ def load_known(prop):
 
 
 def run_worker(job):
+    """Runs one shard; an inconclusive shard (timeout, aborted paths, worker error) is retried once with a doubled budget."""
+    res = _run_worker_once(job)
+    if res.get('verdict') in ('unknown', 'pre_unsat', 'error') and job.get('expect') != 'refuted' and not job.get('_retried'):
+        job2 = dict(job, timeout=job['timeout'] * 2, _retried=True)
+        res2 = _run_worker_once(job2)
+        res2['retried'] = True
+        res2['first_attempt'] = {'verdict': res.get('verdict'), 'error': res.get('error'), 'paths': res.get('num_paths')}
+        return res2
+    return res
+
+
+def _run_worker_once(job):
     """job: dict(path, fn, extra_pre, timeout, per_path_timeout, label)"""
     spec = {'extra_pre': job['extra_pre'], 'timeout': job['timeout']}
     if job.get('per_path_timeout'):
